@@ -36,6 +36,12 @@ def normValue : Value → Value
 
 abbrev Key := List Value
 
+/-- `apply_prefix_truncation`: the first `n` characters of a string key component (prefix-length
+index column); other values unchanged -/
+def truncValue (n : Nat) : Value → Value
+  | .str s => .str (String.ofList (s.toList.take n))
+  | v => v
+
 /-- type tag used by `Ord for SqlValue` for values of different types (normalised numerics are
 Double = 8, Varchar = 10, Boolean = 11; NULL is handled before) -/
 def tag : Value → Nat
